@@ -234,6 +234,9 @@ DEFAULTS_LEAF = {
 }  # fmt: skip
 
 
+COLLIDING = [0, 8, 16, 1, 32]  # hash(v) % 8 collides for four of five; the fifth insertion resizes the table
+
+
 def dedupe(values):
     out, seen = [], set()
     for v in values:
@@ -263,6 +266,11 @@ def pool(spec, wide=True):
             out += [[s[0], s[1]], [s[1], s[0]], [s[1], s[1]], [s[-1], s[0], s[1]]]
         if ctor in ("List", "Sequence"):
             out += [s[0]]  # a bare element where a list is expected
+        if ctor == "Set" and spec[1] in ("int", "float"):
+            # enough members to make the hash table grow while the set is built, with hashes that collide in the
+            # small table: the iteration (= dump) order then depends on the insertion history, not on the members
+            conv = float if spec[1] == "float" else int
+            out += [[conv(v) for v in COLLIDING], [conv(v) for v in reversed(COLLIDING)]]
         return dedupe(out)
     if ctor in ("DictStr", "Mapping", "OrderedDict"):
         s = sub[0]
@@ -461,6 +469,7 @@ CLASS_DEFAULTS = [
     {"__lazy__": "SubD", "kwargs": {"lr": 3}},
     {"__lazy__": "SubB", "kwargs": {"inner": {"class_path": LIB + ".Inner", "init_args": {"v": 2}}}},
     None,
+    {"class_path": LIB + ".SubK", "dict_kwargs": {"z": 1}},  # appended: the indexes of the others are used below
 ]
 HOLDER_VALUES = [
     "Holder", {"class_path": LIB + ".Holder"},
@@ -600,7 +609,32 @@ def has_nan_inf(v):
 SUBDIR = "sub"
 CONF = "sub/conf.yaml"
 DCF = "dcf.yaml"
-SHAPES = ["flat", "group", "dataclass", "optdc", "listdc", "dictdc", "nesteddc", "classgroup", "funcgroup", "sub_a", "sub_bc", "link", "inner"]
+SHAPES = ["flat", "group", "dataclass", "optdc", "listdc", "dictdc", "nesteddc", "classgroup", "funcgroup", "sub_a", "sub_bc", "link", "inner",
+          "sub_a_alias", "sub_bc_alias"]
+# Sub-command shapes: the names by which the sub-commands on the way to the target argument are SELECTED.  The
+# "_alias" shapes declare aliases for every sub-command (SUB_ALIASES) and select through them: the result then holds
+# the settings under the alias name (cfg.subcommand == "a2", cfg.a2.x), never under the primary one.
+SUB_ALIASES = {"a": ("aa", "a2"), "b": ("bb",), "c": ("cc",), "d": ("dd", "d2")}
+SUB_PATHS = {
+    "sub_a": ["a"], "sub_bc": ["b", "c"],
+    "sub_a_alias": ["a2"],  # a later alias of several
+    "sub_bc_alias": ["bb", "cc"],  # the only alias, at both levels
+    "sub_bc_alias1": ["bb", "c"], "sub_bc_alias2": ["b", "cc"],  # alias at one level only (thorough tier)
+}  # fmt: skip
+SUB_SIBLINGS = {  # argv that selects another sub-command than the one on the path (nearest sibling, first-level sibling)
+    "sub_a": [["b", "d"]], "sub_bc": [["b", "d"], ["a"]],
+    "sub_a_alias": [["bb", "d2"]], "sub_bc_alias": [["bb", "d2"], ["aa"]],
+    "sub_bc_alias1": [["bb", "dd"], ["a2"]], "sub_bc_alias2": [["b", "dd"], ["a2"]],
+}  # fmt: skip
+SHAPES_THOROUGH = ["sub_bc_alias1", "sub_bc_alias2"]
+
+
+# flat parsers whose target argument is named like an attribute of the Namespace class (stored under a marked key)
+NAME_SHAPES = {"flat_items": "items", "flat_values": "values", "flat_keys": "keys", "flat_get": "get", "flat_clone": "clone", "flat_update": "update"}
+
+
+def shapes(quick):
+    return SHAPES if quick else SHAPES + SHAPES_THOROUGH
 
 
 def _new(mode, config=True, **kw):
@@ -631,6 +665,9 @@ def build_parser(spec, dobj, has_default):
     if shape == "flat":
         p.add_argument("--x", type=build_type(tspec), **kw)
         p.add_argument("--keep", type=str, default="keep")
+    elif shape in NAME_SHAPES:
+        p.add_argument("--" + NAME_SHAPES[shape], type=build_type(tspec), **kw)
+        p.add_argument("--keep", type=str, default="keep")
     elif shape == "group":
         p.add_argument("--top", type=str, default="t")
         p.add_argument("--g.x", type=build_type(tspec), **kw)
@@ -653,7 +690,8 @@ def build_parser(spec, dobj, has_default):
     elif shape == "funcgroup":
         fn = make_function(tspec, dobj, has_default)
         p.add_function_arguments(fn, "f")
-    elif shape in ("sub_a", "sub_bc"):
+    elif shape in SUB_PATHS:
+        al = (lambda n: {"aliases": SUB_ALIASES[n]}) if "_alias" in shape else (lambda n: {})
         p.add_argument("--top", type=float, default=0.0)
         sc = p.add_subcommands()
         a = _new(mode, config=False)
@@ -661,15 +699,15 @@ def build_parser(spec, dobj, has_default):
         a.add_argument("--n", type=float, default=1.0)
         b = _new(mode, config=False)
         b.add_argument("--m", type=Optional[int], default=None)
-        sc.add_subcommand("a", a)
-        sc.add_subcommand("b", b)  # level order: both first-level subcommands before the second level
+        sc.add_subcommand("a", a, **al("a"))
+        sc.add_subcommand("b", b, **al("b"))  # level order: both first-level subcommands before the second level
         sc2 = b.add_subcommands()
         c = _new(mode, config=False)
         c.add_argument("--y", type=build_type(tspec), **kw)
         d = _new(mode, config=False)
         d.add_argument("--z", type=Optional[str], default=None)
-        sc2.add_subcommand("c", c)
-        sc2.add_subcommand("d", d)
+        sc2.add_subcommand("c", c, **al("c"))
+        sc2.add_subcommand("d", d, **al("d"))
     elif shape == "link":
         T = build_type(tspec)
         p.add_argument("--src.x", type=T, **kw)
@@ -723,6 +761,8 @@ def place(shape, v):
     t = argv_text(v)
     if shape == "flat":
         return {"x": v}, ["--x=" + t], {"APP_X": t}
+    if shape in NAME_SHAPES:
+        return {NAME_SHAPES[shape]: v}, ["--" + NAME_SHAPES[shape] + "=" + t], {"APP_" + NAME_SHAPES[shape].upper(): t}
     if shape == "group":
         return {"g": {"x": v}}, ["--g.x=" + t], {"APP_G__X": t}
     if shape == "dataclass":
@@ -741,10 +781,11 @@ def place(shape, v):
         return {"k": {"x": v}}, ["--k.x=" + t], None
     if shape == "funcgroup":
         return {"f": {"x": v}}, ["--f.x=" + t], None
-    if shape == "sub_a":
-        return {"subcommand": "a", "a": {"x": v}}, ["a", "--x=" + t], None
-    if shape == "sub_bc":
-        return {"b": {"c": {"y": v}}}, ["b", "c", "--y=" + t], None
+    if shape in SUB_PATHS:
+        names = SUB_PATHS[shape]
+        if len(names) == 1:
+            return {"subcommand": names[0], names[0]: {"x": v}}, [names[0], "--x=" + t], None
+        return {names[0]: {names[1]: {"y": v}}}, names + ["--y=" + t], None
     if shape == "link":
         return {"src": {"x": v}}, ["--src.x=" + t], None
     if shape == "inner":
@@ -757,6 +798,8 @@ AMBIENT_SHAPES = {  # shape -> (environment variable of the target argument, (va
     "group": ("APP_G__X", ("APP_G__H__Y", "4.5")),
     "sub_a": ("APP_A__X", ("APP_TOP", "2.5")),
     "sub_bc": ("APP_B__C__Y", ("APP_B__M", "7")),
+    "sub_a_alias": ("APP_A__X", ("APP_TOP", "2.5")),  # the variables are named after the primary names
+    "sub_bc_alias": ("APP_B__C__Y", ("APP_B__M", "7")),
     "inner": ("APP_INNER__X", ("APP_KEEP", "from-env")),
 }
 
@@ -789,12 +832,18 @@ def _subst_leaf(obj, v):
 EMPTY = {  # the inputs that give nothing but what the parser declares
     "flat": ({}, []), "group": ({}, []), "dataclass": ({}, []), "optdc": ({}, []), "listdc": ({}, []), "dictdc": ({}, []),
     "nesteddc": ({}, []), "classgroup": ({}, []), "funcgroup": ({}, []), "link": ({}, []), "inner": ({}, []),
-    "sub_a": ({"subcommand": "a"}, ["a"]), "sub_bc": ({"b": {"subcommand": "c"}}, ["b", "c"]),
 }  # fmt: skip
+for _shape in NAME_SHAPES:
+    EMPTY[_shape] = ({}, [])
+for _shape, _names in SUB_PATHS.items():
+    EMPTY[_shape] = ({"subcommand": _names[0]}, list(_names)) if len(_names) == 1 else ({_names[0]: {"subcommand": _names[1]}}, list(_names))
 
 CHANNELS = ["object", "argv", "string"]
 EMPTY_CHANNELS = ["noargs", "emptyobj", "emptystr"]
 FILE_CHANNELS = ["cfgfile", "cfgfile+override", "parse_path", "default_config_file"]
+# sub-command shapes with a default config file that selects the sub-command of the path and holds the value, while the
+# command line selects ANOTHER sub-command (nearest sibling / first-level sibling)
+SIBLING_CHANNELS = ["default_config_file+sibling", "default_config_file+sibling-top"]
 ENV_CHANNELS = ["env"]
 NATIVE_CHANNELS = ["object-native"]  # parse_object of already typed Python objects (value = JSON with descriptors)
 # the value lives in a file of its own and the argument is given as the path of that file
@@ -857,6 +906,12 @@ def render(spec, channel, value, cwd):
         if not spec.get("dcf"):
             return None
         return "parse_args", [], {DCF: text}, None
+    if channel in SIBLING_CHANNELS:
+        sib = SUB_SIBLINGS.get(shape, [])
+        i = SIBLING_CHANNELS.index(channel)
+        if not spec.get("dcf") or i >= len(sib):
+            return None
+        return "parse_args", list(sib[i]), {DCF: text}, None
     if channel == "env":
         if env is None or any("\x00" in v for v in env.values()):
             return None
@@ -889,9 +944,13 @@ def supplied_paths(spec, channel):
     if channel in EMPTY_CHANNELS:
         return []
     shape = spec["shape"]
+    if shape in NAME_SHAPES:
+        return [NAME_SHAPES[shape]]
+    if shape in SUB_PATHS:
+        return [".".join(SUB_PATHS[shape] + ["x" if len(SUB_PATHS[shape]) == 1 else "y"])]
     return {
         "flat": ["x"], "group": ["g.x"], "dataclass": ["d.x"], "optdc": ["d"], "listdc": ["d"], "dictdc": ["d"], "nesteddc": ["o.i.x"],
-        "classgroup": ["k.x"], "funcgroup": ["f.x"], "sub_a": ["a.x"], "sub_bc": ["b.c.y"], "link": ["src.x", "dst.y"], "inner": ["inner.x"],
+        "classgroup": ["k.x"], "funcgroup": ["f.x"], "link": ["src.x", "dst.y"], "inner": ["inner.x"],
     }[shape] + (["keep"] if channel == "cfgfile+override" else [])  # fmt: skip
 
 
@@ -916,7 +975,7 @@ def g2_binary(leaves):
 EXTRA_UNIONS = [
     ["Union", "int", ["List", "int"]], ["Union", ["List", "int"], "int"], ["Union", "E", "ES"], ["Union", "ES", "str"], ["Union", "str", "ES"],
     ["Union", "Path_fr", "str"], ["Union", "str", "Path_fr"], ["Union", "pathlib.Path", "int"], ["Union", "Decimal", "str"],
-    ["Union", "PositiveInt", "str"], ["Union", "LitA", "int"], ["Union", "bool", "LitB"], ["Union", "Money", "int"], ["Union", "range", ["List", "int"]],
+    ["Union", "PositiveInt", "str"], ["Union", "PositiveInt", "float"], ["Union", "LitA", "int"], ["Union", "bool", "LitB"], ["Union", "Money", "int"], ["Union", "range", ["List", "int"]],
     ["Union", ["Tuple2", "int", "int"], ["List", "int"]], ["Union", ["DictStr", "int"], ["List", "int"]], ["Union", "E", ["List", "E"]],
     ["Union", "timedelta", "int"], ["Union", "complex", "float"], ["Union", "UUID", "str"], ["Union", "bytes", "str"],
 ]  # fmt: skip
@@ -1003,14 +1062,14 @@ def parser_specs(tier):
         for d, dform in default_variants(ds, 1):
             add("flat", t, d, dform, inputs_for(vals, ["object", "argv"] if quick else CHANNELS))
     # structured parser shapes
-    for shape in SHAPES[1:]:
+    for shape in shapes(quick)[1:]:
         for t in SHAPE_TYPES_QUICK if quick else SHAPE_TYPES:
             vals = pool(t, wide=False) if isinstance(t, str) else pool(t)
             if quick:
                 vals = vals[:10]
             ds = defaults(t)
             for d, dform in default_variants(ds, 1 if quick else 2):
-                add(shape, t, d, dform, inputs_for(vals, CHANNELS + (["cfgfile"] if shape in ("group", "dataclass", "sub_a", "inner") else [])))
+                add(shape, t, d, dform, inputs_for(vals, CHANNELS + (["cfgfile"] if shape in ("group", "dataclass", "sub_a", "inner", "sub_a_alias", "sub_bc_alias") else [])))
     # class-like types: subclass specs, lazy instances, callables, Type[...], dataclass types
     class_types = ["Base", "Holder", "CallableII", "CallableBase", "CallableAny", "TypeBase"] + DATACLASSES
     class_types += [["Optional", "Base"], ["List", "Base"], ["DictStr", "Base"], ["Optional", "Mixed"], ["List", "Mixed"], ["DictStr", "Point"],
@@ -1019,12 +1078,12 @@ def parser_specs(tier):
         class_types += [["Optional", "Holder"], ["List", "Holder"], ["DictStr", "Mixed"], ["Optional", "CallableBase"], ["List", "Outer"], ["Optional", "Req"]]
     for t in class_types:
         for i, d in enumerate(class_defaults(t)):
-            full = i < (1 if t == "Holder" else 2) or not quick
+            full = i < (1 if t == "Holder" else 2) or not quick or (t in ("Base", ["Optional", "Base"]) and isinstance(d, dict) and "dict_kwargs" in d)
             ch = CHANNELS + ["cfgfile"] if full else ["object", "argv"]
             vals = class_pool(t)
             add("flat", t, d, "raw", inputs_for(vals if full else vals[:12], ch))
     for t in ["Base", "Mixed", "Holder"]:
-        for shape in ["group", "sub_a", "dataclass", "listdc", "classgroup", "link"] if not quick else ["group", "sub_a", "dataclass"]:
+        for shape in ["group", "sub_a", "dataclass", "listdc", "classgroup", "link", "sub_a_alias", "sub_bc_alias"] if not quick else ["group", "sub_a", "dataclass", "sub_a_alias"]:
             if quick and t == "Holder" and shape != "sub_a":
                 continue
             for d in class_defaults(t)[: 1 if quick and t == "Holder" else 2]:
@@ -1049,12 +1108,12 @@ def parser_specs(tier):
         add("flat", t, UNSET, "raw", inputs_for(nat, NATIVE_CHANNELS, empties=False))
         if not quick or t[0] != "Union":
             add("flat", t, nat[0], "native", inputs_for(nat[:2], NATIVE_CHANNELS))
-    for shape in SHAPES[1:]:
+    for shape in shapes(quick)[1:]:
         for t in SHAPE_TYPES_QUICK if quick else SHAPE_TYPES:
             nat = native_pool(t)
             if nat:
                 add(shape, t, UNSET, "raw", inputs_for(nat[:3], NATIVE_CHANNELS, empties=False))
-                if shape in ("group", "dataclass", "classgroup", "sub_a"):
+                if shape in ("group", "dataclass", "classgroup", "sub_a", "sub_a_alias", "sub_bc_alias"):
                     add(shape, t, nat[0], "native", inputs_for(nat[:2], NATIVE_CHANNELS))
     # --- ambient environment: the parser reads os.environ (default_env=True) and the variables of the target
     # argument and of a sibling stay set for the first parse and for every transition; the inputs of the other
@@ -1098,13 +1157,26 @@ def parser_specs(tier):
         add("flat", t, defaults(t)[0], "raw", inputs_for(vals[:3], OWNFILE_CHANNELS[:2], empties=False), enable_path=True)
         add("flat", t, UNSET, "raw", inputs_for(vals[:4], OWNFILE_CHANNELS[5:], empties=False), dcf=True, enable_path=True)
         if t[0] == "DictStr" and not quick or t == ["DictStr", "float"]:
-            for shape in ("group", "sub_a", "inner"):
+            for shape in ("group", "sub_a", "inner", "sub_a_alias"):
                 add(shape, t, UNSET, "raw", inputs_for(vals, OWNFILE_CHANNELS[:5], empties=False), enable_path=True)
     for t in ["Base", "Holder", "Point", "Mixed", "Outer", ["Optional", "Base"], ["Optional", "Mixed"], ["List", "Base"], ["DictStr", "Point"], ["DictStr", "Base"]]:
         vals = [v for v in class_pool(t) if not isinstance(v, str) and v is not None][: 4 if quick else 12]
         for d in class_defaults(t)[: 1 if quick else 2]:
             add("flat", t, d, "raw", inputs_for(vals, ["argv@file", "object@file", "cfgfile@file"] if quick else OWNFILE_CHANNELS[:5], empties=False), enable_path=True)
         add("flat", t, UNSET, "raw", inputs_for(vals[:3], OWNFILE_CHANNELS[5:], empties=False), dcf=True, enable_path=True)
+    # --- sub-command shapes with a default config file: it selects the sub-command of the path and holds the value;
+    # the command line gives nothing / the same sub-command with a value / ANOTHER sub-command
+    for shape in [x for x in shapes(quick) if x in SUB_PATHS]:
+        for t in ["float", "E", ["List", "E"]] if quick else SHAPE_TYPES:
+            vals = (pool(t, wide=False) if isinstance(t, str) else pool(t))[: 3 if quick else 8]
+            add(shape, t, UNSET, "raw", inputs_for(vals, ["default_config_file"] + SIBLING_CHANNELS, empties=True), dcf=True)
+    # --- arguments named like attributes of the Namespace class
+    for shape in NAME_SHAPES if not quick else list(NAME_SHAPES)[:4]:
+        for t in (["float", "E", ["List", "E"], ["Optional", "float"]] if quick else SHAPE_TYPES):
+            vals = (pool(t, wide=False) if isinstance(t, str) else pool(t))[: 4 if quick else 10]
+            ds = defaults(t)
+            for d, dform in default_variants(ds, 1)[: 2 if quick else 3]:
+                add(shape, t, d, dform, inputs_for(vals, CHANNELS + ["cfgfile"]))
     # argv-only spellings: appends, nested keys, repeated options
     for t, items in ARGV_RAW:
         add("flat", t, UNSET, "raw", [["argv-raw", a] for a in items])
